@@ -289,6 +289,22 @@ func gen(t *rapid.T) Case {
 		depth++
 	}
 	doc := g.Document(depth)
+	if paths, ok := doc["paths"].(map[string]any); ok && version == 3 && len(paths) > 0 && rapid.IntRange(0, 2).Draw(t, "pathref") == 0 {
+		// a path item that is a reference to another path of the document: the loader copies the target
+		// into it, the writer has to write the reference alone again
+		var targets []string
+		for _, k := range jv.Keys(paths) {
+			if pm, isMap := paths[k].(map[string]any); isMap && pm["$ref"] == nil && strings.HasPrefix(k, "/") {
+				targets = append(targets, k)
+			}
+		}
+		if len(targets) > 0 {
+			tk := rapid.SampledFrom(targets).Draw(t, "pathreftarget")
+			name := rapid.SampledFrom([]string{"/zz-ref", "/!ref"}).Draw(t, "pathrefname") // after / before its target
+			paths[name] = map[string]any{"$ref": "#/paths/" + strings.ReplaceAll(strings.ReplaceAll(tk, "~", "~0"), "/", "~1")}
+			h.Extra("pair:PathItem.$ref(local)", 1)
+		}
+	}
 	normal := true
 	if rapid.IntRange(0, 4).Draw(t, "nonnormal") == 0 {
 		normal = false
